@@ -14,7 +14,44 @@ import os
 import sys
 
 from vlib import core
-from vlib.core import enc_str, enc_bool, enc_Z, enc_N
+from vlib.core import enc_bool, enc_Z, enc_N
+
+
+class Interner:
+    """Names every distinct string once (Definition s_<n> := ...) so that case terms stay small:
+    Coq spends its time elaborating literals, not running the model."""
+
+    def __init__(self):
+        self.names = {}
+
+    def __call__(self, s):
+        if s == "":
+            return "[]"
+        if s not in self.names:
+            self.names[s] = "s_%d" % len(self.names)
+        return self.names[s]
+
+    def definitions(self):
+        out = []
+        for s, n in self.names.items():
+            if all(32 <= ord(c) < 127 and c != '"' for c in s):
+                out.append('Definition %s : pystr := str "%s".' % (n, s))
+            else:
+                out.append("Definition %s : pystr := %s." % (n, core.enc_str(s)))
+        return "\n".join(out) + "\n"
+
+
+INTERN = Interner()
+
+
+def enc_str(s):
+    return INTERN(s)
+
+
+def header():
+    """To be called AFTER all cases have been encoded."""
+    return HEADER + INTERN.definitions()
+
 
 if core.REPO not in sys.path:
     sys.path.insert(0, core.REPO)
@@ -180,14 +217,23 @@ def snapshot_sym(a, case, seen_times):
 
 
 # ---------------------------------------------------------------------------------- encoders
-HEADER = """From Coq Require Import List ZArith NArith Bool.
+HEADER = """From Coq Require Import List ZArith NArith Bool String.
 Import ListNotations.
 Require Import RV.Lib.PyStr RV.Model.LoginCache.
+Open Scope string_scope.
 Open Scope Z_scope.
+Definition t_ (d : Z) : Z := 1700000000000000000 + d.
 Definition A_ := @Attempt creds.
 Definition T_ := @Tick creds.
 Definition C_ := @Change creds.
 """
+
+
+def enc_T(v):
+    """clock values: written relative to T0 (19-digit literals are what Coq spends its time on)"""
+    if abs(v - T0) < 10 ** 15:
+        return "(t_ (%d))" % (v - T0)
+    return enc_Z(v)
 
 
 def enc_creds(tbl):
@@ -198,7 +244,7 @@ def enc_cfg(case):
     c = case["cfg"]
     return "(mkConfig %s %s %s %s %s %s %s)" % (enc_bool(c["lc"]), enc_bool(c["uc"]), enc_bool(c["strip"]),
                                                enc_bool(cache_enabled(c)), enc_Z(c["exp_s"]), enc_Z(c["exp_f"]),
-                                               enc_Z(case["t0"]))
+                                               enc_T(case["t0"]))
 
 
 def enc_event(ev):
@@ -210,7 +256,7 @@ def enc_event(ev):
 
 
 def enc_case(case):
-    return "(%s, %s, %s, [%s])" % (enc_cfg(case), enc_Z(case["t0"]), enc_creds(case["creds"]),
+    return "((%s, %s, %s, [%s]) : ccase)" % (enc_cfg(case), enc_T(case["t0"]), enc_creds(case["creds"]),
                                    ";".join(enc_event(e) for e in case["events"]))
 
 
@@ -222,18 +268,18 @@ def enc_outcome(out):
 
 def enc_dval(d):
     if d[0] == "H":
-        return "(DHash %s %s %s)" % (enc_Z(d[1]), enc_str(d[2]), enc_str(d[3]))
+        return "(DHash %s %s %s)" % (enc_T(d[1]), enc_str(d[2]), enc_str(d[3]))
     if d[0] == "K":
-        return "(DKey %s %s %s %s)" % (enc_str(d[1]), enc_Z(d[2]), enc_str(d[3]), enc_str(d[4]))
+        return "(DKey %s %s %s %s)" % (enc_str(d[1]), enc_T(d[2]), enc_str(d[3]), enc_str(d[4]))
     return "DEmpty"          # unknown digest: never equal to what the model stores
 
 
 def enc_expect(res):
     obs = ";".join("(mkCobs %s %s %s %s)" % (enc_outcome(o["out"]), enc_bool(o["called"]), enc_N(o["nsucc"]), enc_N(o["nfailed"]))
                    for o in res["obs"])
-    succ = ";".join("(%s, (%s, %s))" % (enc_str(l), enc_dval(d), enc_Z(t)) for l, d, t in res["succ"])
-    failed = ";".join("(%s, (%s, %s))" % (enc_dval(k), enc_Z(t), enc_str(l)) for k, t, l in res["failed"])
-    return "([%s], [%s], [%s])" % (obs, succ, failed)
+    succ = ";".join("(%s, (%s, %s))" % (enc_str(l), enc_dval(d), enc_T(t)) for l, d, t in res["succ"])
+    failed = ";".join("(%s, (%s, %s))" % (enc_dval(k), enc_T(t), enc_str(l)) for k, t, l in res["failed"])
+    return "(([%s], [%s], [%s]) : cexpect)" % (obs, succ, failed)
 
 
 def variant_term(f1, f2, f3):
